@@ -44,8 +44,17 @@ func streamCli(r *rand.Rand, i int, tier string) *Case {
 	old := newERS("foo-old", genTemplate(r, 1, false), now.Add(-time.Hour))
 	if r.Intn(3) != 0 {
 		eds.Status.Canary = &edsv1.ExtendedDaemonSetStatusCanary{ReplicaSet: pick(r, "foo-new", "foo-new", "foo-gone"), Nodes: []string{"n0"}}
-		eds.Status.State = edsv1.ExtendedDaemonSetStatusStateCanary
-		cat = append(cat, "canary-active")
+		// every state string a reconcile may have left while the canary is active (paused by the user or
+		// by the controller itself, or not yet refreshed since the canary started): the commands decide from
+		// status.canary, never from the state string
+		eds.Status.State = pick(r, edsv1.ExtendedDaemonSetStatusStateCanary, edsv1.ExtendedDaemonSetStatusStateCanary,
+			edsv1.ExtendedDaemonSetStatusStateCanaryPaused, edsv1.ExtendedDaemonSetStatusStateRunning, "")
+		cat = append(cat, "canary-active", "state:"+string(eds.Status.State))
+	} else if r.Intn(3) == 0 {
+		// no canary, but a stale state string
+		eds.Status.State = pick(r, edsv1.ExtendedDaemonSetStatusStateCanary, edsv1.ExtendedDaemonSetStatusStateCanaryFailed,
+			edsv1.ExtendedDaemonSetStatusStateRollingUpdatePaused, edsv1.ExtendedDaemonSetStatusStateRolloutFrozen)
+		cat = append(cat, "state:"+string(eds.Status.State))
 	}
 	if r.Intn(2) == 0 {
 		eds.Annotations = map[string]string{}
